@@ -25,6 +25,7 @@
 #include "simk.h"
 
 extern int sk_cur;
+extern int sk_interrupt;
 extern void sk_ledger_reset(void);
 extern pid_t __real_fork(void);
 extern pid_t __real_waitpid(pid_t, int *, int);
@@ -143,6 +144,7 @@ static void apply_env(jv *s)
   int h = (int) j_int(s, "h", 1);
   int p = child_of(h);
   if (!strcmp(k, "adv")) { K->now += (int) j_int(s, "d", 1); return; }
+  if (!strcmp(k, "eintr")) { sk_interrupt = 1; return; }
   if (p < 0 && keep_going) return;
   if (p < 0) diverge("badenv", k, s, NULL);
   if (!strcmp(k, "out") || !strcmp(k, "err")) {
